@@ -47,6 +47,7 @@ func cmdRun(args []string) {
 	timeout := fs.Int("timeout", 60000, "per-query timeout ms")
 	forkMap := fs.Bool("forkmap", false, "fork over map iteration orders")
 	verbose := fs.Bool("v", false, "verbose")
+	noMerge := fs.Bool("nomerge", false, "disable state merging")
 	fs.Parse(args)
 	t0 := time.Now()
 	ld, err := Load(*repo, *root)
@@ -73,6 +74,7 @@ func cmdRun(args []string) {
 	cfg.MaxPaths = *maxPaths
 	cfg.TimeoutMs = *timeout
 	cfg.ForkMapOrder = *forkMap
+	cfg.NoMerge = *noMerge
 	res := Explore(ld.prog, fn, initFns(pkg), cfg)
 	printResult(res, *verbose)
 }
@@ -81,7 +83,7 @@ func printResult(res *RunResult, verbose bool) {
 	fmt.Printf("entry %s: paths=%d ends=%v branches=%d steps=%d wall=%v\n", res.Entry, res.Paths, res.Ends, res.Branches, res.Steps, res.Wall.Round(time.Millisecond))
 	fmt.Printf("  solver: %+v\n", res.Solver)
 	fmt.Printf("  obligations=%d discharged=%d violations=%d inconclusive=%d ndSources=%d\n", res.Obligations, res.Discharged, len(res.Violations), len(res.Inconclusive), res.NdSources)
-	fmt.Printf("  reached=%v\n", res.Reached)
+	fmt.Printf("  reached=%v merges=%d mergeAborts=%d evalSkips=%d\n", res.Reached, res.Merges, res.MergeAborts, res.EvalSkips)
 	for _, k := range sortedCountKeys(res.EndMsgs) {
 		fmt.Printf("  end: %dx %s\n", res.EndMsgs[k], k)
 	}
